@@ -67,6 +67,13 @@ def _quote(s):
     return "".join(out)
 
 
+# number literals as the lexer accepts them: the printer must emit the lexed text (-0 is a valid IntValue and
+# is not the text of any Python int; so are exponents in either case and trailing zeros)
+INT_LITERALS = ["0", "1", "-7", "42", "-0", "-1", "10", "-100", "123456789012345678901234567890",
+                "-98765432109876543210"]
+FLOAT_LITERALS = ["1.5", "-0.0", "1e3", "2.5E-3", "6.02e+23", "0.0", "-0e0", "1.50", "0E5", "-1.0e-0", "1e+05"]
+
+
 class Gen:
     def __init__(self, rng, strings="some", max_depth=3):
         self.rng = rng
@@ -106,9 +113,9 @@ class Gen:
         if k < 0.12 and not const:
             return "$" + self.name()
         if k < 0.27:
-            return r.choice(["0", "1", "-7", "42", "123456789012345678901234567890"])
+            return r.choice(INT_LITERALS)
         if k < 0.37:
-            return r.choice(["1.5", "-0.0", "1e3", "2.5E-3", "6.02e+23"])
+            return r.choice(FLOAT_LITERALS)
         if k < 0.55:
             return self.string()
         if k < 0.63:
